@@ -1,7 +1,9 @@
 #![feature(alloc_error_hook)]
+#![feature(slice_range)]
 #![allow(clippy::all)]
 #![allow(unexpected_cfgs)]
 pub mod arena;
+pub mod coll;
 pub mod monalloc;
 pub mod out;
 pub mod rng;
